@@ -25,7 +25,8 @@ NDims == Len(DimSeq)
 \* ctype:    Content-Type: application/json, with parameters / other case, another type, absent, unparsable
 \* accept:   Accept: admits both json and event-stream (literally / by wildcard), only one, neither, absent
 \* body:     well-formed message, the same padded to exactly the limit, empty, padded beyond the limit, not a JSON-RPC message,
-\*           a well-formed message followed by further non-blank bytes (not a JSON text: RFC 8259 allows only one value)
+\*           a well-formed message (or legacy batch) followed by further non-blank bytes, e.g. a second JSON value
+\*           (not a JSON text: RFC 8259 allows only one value)
 \* vhdr:     Mcp-Protocol-Version header: absent, supported legacy, unsupported (older), 2026-07-28, unsupported (later)
 \* meta:     _meta protocolVersion in the body: absent, equal to the header, different and >= 2026-07-28, different and legacy
 \* mm/mn/mp: Mcp-Method / Mcp-Name / Mcp-Param-Region header against the body value
@@ -99,7 +100,7 @@ ExpectedStreamable(c) ==
   ELSE IF c.ctype \in BadCT THEN R(415, 0)                                \* serveStateless / serveStatefulPOST
   ELSE IF c.accept \in BadAccept THEN R(400, 0)
   ELSE IF c.body = "oversize" THEN R(413, 0)                              \* ephemeralConnectOpts / servePOST read
-  ELSE IF c.body \in {"empty", "malformed"} THEN R(400, 0)                \* servePOST ("trailing": the decoder stops after the first value)
+  ELSE IF c.body \in {"empty", "malformed", "trailing"} THEN R(400, 0)    \* servePOST (Unmarshal accepts exactly one JSON value)
   ELSE IF (c.vhdr \in {"new", "future"} \/ c.meta # "absent") /\ c.kind = "stateful" THEN R(400, CodeUnsupportedVersion)
   ELSE IF (c.vhdr \in {"new", "future"} \/ c.meta # "absent") /\ c.vhdr = "absent" THEN R(400, CodeMismatch)
   ELSE IF (c.vhdr \in {"new", "future"} \/ c.meta # "absent") /\ c.meta = "absent" THEN R(400, CodeInvalidParams)
@@ -112,7 +113,7 @@ ExpectedStreamable(c) ==
 ExpectedSSE(c) ==
   IF LoopListener(c) /\ c.host # "loop" THEN R(403, 0)
   ELSE IF c.ctype \in BadCT THEN R(415, 0)
-  ELSE IF c.body \in {"empty", "malformed"} THEN R(400, 0)
+  ELSE IF c.body \in {"empty", "malformed", "trailing"} THEN R(400, 0)
   ELSE [status |-> 202, code |-> 0, reach |-> "yes"]
 
 Expected(c) == IF c.kind = "sse" THEN ExpectedSSE(c) ELSE ExpectedStreamable(c)
